@@ -222,7 +222,7 @@ class Registry:
                             pv: Dict[str, ast.expr] = {}
                             for kw in call.keywords:
                                 if kw.arg == "params":
-                                    pk, pv = self._dict_items(kw.value, c)
+                                    pk, pv = self._dict_items(kw.value, c, own_ctor.node)
                             keys.append(pk)
                             values.append(pv)
             computed: List[str] = []
@@ -230,7 +230,7 @@ class Registry:
             if gcp is not None and gcp.cls is not self.instr_base:
                 for r in ast.walk(gcp.node):
                     if isinstance(r, ast.Return) and r.value is not None:
-                        k, _ = self._dict_items(r.value, c)
+                        k, _ = self._dict_items(r.value, c, gcp.node)
                         for x in k:
                             if x not in computed:
                                 computed.append(x)
@@ -247,9 +247,15 @@ class Registry:
                 c, own_ctor, params, defaults, calls, keys, values, computed, nom, abstract
             )
 
-    def _dict_items(self, node: ast.expr, c: ClassInfo) -> Tuple[List[str], Dict[str, ast.expr]]:
+    def _dict_items(self, node: ast.expr, c: ClassInfo, scope: Optional[ast.AST] = None) -> Tuple[List[str], Dict[str, ast.expr]]:
         keys: List[str] = []
         vals: Dict[str, ast.expr] = {}
+        # a local bound once to the dict (`params = dict(...)`; `return params`) denotes the dict
+        if isinstance(node, ast.Name) and scope is not None:
+            defs = [a.value for a in ast.walk(scope) if isinstance(a, ast.Assign) and len(a.targets) == 1
+                    and isinstance(a.targets[0], ast.Name) and a.targets[0].id == node.id]
+            if len(defs) == 1:
+                node = defs[0]
         if isinstance(node, ast.Call) and dotted(node.func) == "dict" and not node.args:
             for kw in node.keywords:
                 if kw.arg is None:
